@@ -58,6 +58,8 @@ def first_datagrams_case(ctx, case):
                 elif kind == "mutated":
                     pool = (nxt + [d for x, d in flights if x != ("s" if role == "server" else "c")]) or [b"\x00"]
                     data = C05.mutate(pool[inp[1] % len(pool)], inp[2])
+                elif kind in ("vn", "retry"):
+                    data = C05.build_special(sut, inp)
                 else:
                     continue
                 now += 0.001
@@ -120,7 +122,12 @@ def first_datagrams_task(ctx, examples, shard):
     from vlib.harness import run_hypothesis
 
     states = st.sampled_from(["fresh-server", "fresh-server", "fresh-server", "client-connecting", "server-after-initial", "client-after-server-flight", "server-after-client-finished", "connected-server", "connected-client"])
-    strat = st.tuples(C05.raw_strategy(), states).map(lambda t: dict(t[0], kind="first", state=t[1], inputs=[i for i in t[0]["inputs"] if i[0] in ("bytes", "genuine", "mutated")] or [("bytes", b"\x00")]))
+    strat = st.tuples(C05.raw_strategy(), states).map(lambda t: dict(t[0], kind="first", state=t[1], inputs=[i for i in t[0]["inputs"] if i[0] in ("bytes", "genuine", "mutated", "vn", "retry")] or [("bytes", b"\x00")]))
+
+    # a client right after connect(): Version Negotiation (acceptable, unacceptable, ignorable), Retry, and the genuine answer in any order
+    special = st.lists(st.one_of(st.tuples(st.just("vn"), st.sampled_from(["current", "current+other", "other", "none", "unknown", "many"]), st.booleans()), st.tuples(st.just("retry"), st.sampled_from([0, 16, 100, 1150]), st.booleans()), st.tuples(st.just("genuine"), st.integers(0, 3))), min_size=1, max_size=4)
+    directed = special.map(lambda inputs: {"kind": "first", "state": "client-connecting", "inputs": inputs})
+    strat = st.one_of(strat, strat, strat, directed)
 
     def body(ctx, case):
         first_datagrams_case(ctx, case)
